@@ -442,6 +442,8 @@ class Program:
                 for sub in _direct_defs(st):
                     nf = FunctionInfo(sub, parent.module, None, parent=parent)
                     parent.nested[nf.name] = nf
+                    # several definitions of one name (one per branch of an if) are different functions
+                    parent.__dict__.setdefault("nested_by_node", {})[id(sub)] = nf
                     self.functions.append(nf)
                     walk(nf, sub.body)
         walk(fi, fi.node.body)
